@@ -11,11 +11,36 @@ def hook_commits():
     except Exception:
         return []
 
+BROKER_NOTE = "Operations and views go through MemBrokerService (the object behind every HTTP handler), not through HTTP/warp. std HashMap iteration order inside undermoon is made reproducible per case (the harness seeds each case thread's RandomState; see DESIGN.md 2.5). Exploration: absence of counterexamples in the explored histories, no proof."
 CHECKS = {
- "C01": dict(engine="brokersim", category="exploration", design="§3 C01",
-   technique="property-based testing: model-free invariant (partition/twin/projection predicate) over generated broker operation histories, evaluated after every step",
-   text="Generated histories (proptest, vec(op)+interpreter) of every admin operation over generated host layouts, migration limits 0..3 and ordered mode; after every step the served cluster view and every per-proxy view are decoded from JSON and checked against an independent 16384-entry owner array, the migrating/importing twin rule and the projection rule. Exploration only: absence of counterexamples in the explored histories.",
-   note="Views are read from MemBrokerService (object behind the HTTP handlers), not through HTTP/warp. HashMap iteration order inside undermoon is not controlled (allocation choices may differ between runs of the same case)."),
+ "C01": dict(engine="brokersim", category="exploration", design="DESIGN.md §3 C01",
+   technique="property-based testing (proptest): invariant over generated broker operation histories, evaluated after every step",
+   text="Generated histories (vec(op)+interpreter, operands picked from the current state) of every admin operation over generated host layouts, migration limits 0..3 and ordered mode; after every step the served cluster view and every per-proxy view are decoded from JSON and checked against an independent 16384-entry owner array, the migrating/importing twin rule and the projection rule.",
+   note=BROKER_NOTE),
+ "C04": dict(engine="brokersim", category="exploration", design="DESIGN.md §3 C04",
+   technique="property-based testing (proptest): history invariant (epoch monotone, strictly increasing on content change) over generated operation histories",
+   text="Same generated histories; after every operation each registered address' served view is compared with the last view ever served for it: epoch never decreases, strictly increases when anything else differs; global epoch monotone.",
+   note=BROKER_NOTE),
+ "C06": dict(engine="brokersim", category="exploration", design="DESIGN.md §3 C06",
+   technique="property-based testing (proptest): model-based oracle (expected ownership transfer computed from the pre-state) over generated histories with failovers injected at every point",
+   text="Failover of an arbitrary registered proxy is drawn at every point of generated histories (during migrations, after earlier failovers/replacements/balance, repeated, with and without spares, ordered mode). Oracle: exact ownership transfer to the replica peers, structure of master/replica pairs, migration epoch strictly newer whenever a migration's addresses changed, allocations only from the free healthy pool.",
+   note=BROKER_NOTE + " The strict clauses are only demanded when the chunk partner is healthy, as the property states."),
+ "C10": dict(engine="brokersim", category="exploration", design="DESIGN.md §3 C10",
+   technique="property-based testing (proptest): generated scaling chains with generated commit orders and interleaved failovers; validity predicate at every completion, refusal/no-change oracle while migrating",
+   text="Scaling chains (1..4 resize requests up and down, sizes chosen from the state, commits in generated order, interleaved failovers/balance/refused requests/stale commits, migration limits 0..3) plus general histories incl. the auto-scale API. Oracle per step (refused while migrating and nothing changed, released chunks were empty, a pending migration is always served and committable) and per completion (16384 stable slots, balance <=1, trailing empty chunks exactly as requested, cluster info).",
+   note=BROKER_NOTE + " Scale-out through the auto API is exercised up to its PROXY_NOT_SYNC outcome."),
+ "C12": dict(engine="brokersim", category="exploration", design="DESIGN.md §3 C12",
+   technique="property-based testing (proptest): invariants recomputed from the /metadata snapshot after every step of generated histories over skewed host layouts; unchanged-on-refusal oracle",
+   text="Skewed/odd host layouts, competing clusters, removals, failure reports, failovers, re-registrations. After every step: membership vs free pool complement, chunk records, broker self-check, panics caught; refused requests leave the snapshot unchanged (documented exceptions modelled); created chunks span two hosts; replacement not on the partner's host when a third host has a free healthy proxy.",
+   note=BROKER_NOTE + " The replacement clause is only demanded when a host other than both the partner's and the failed proxy's own host had a free healthy proxy."),
+ "C13": dict(engine="brokersim", category="exploration", design="DESIGN.md §3 C13",
+   technique="property-based testing (proptest): generated crash point x snapshot point x proxy-epoch distribution; restart + epoch recovery; epoch-dominance oracle plus C01/C04 oracles on the continued history",
+   text="For generated histories: crash after any prefix, restart of a new MemBrokerService from the snapshot of any earlier prefix, proxies holding any epoch ever served for them, epoch recovery via hook H2 (bulk) and via the production recover_epoch over loopback TCP responders (some unreachable). Every view served afterwards must carry an epoch above every asked proxy's epoch; partition and epoch versioning must hold on the continued history.",
+   note=BROKER_NOTE + " The system-level clause (proxies adopt the recovered view after sync rounds) belongs to the proxy world checks."),
+ "C18": dict(engine="brokersim", category="exploration", design="DESIGN.md §3 C18",
+   technique="property-based testing (proptest): reference model of report ages vs the real broker over generated report/age/query/registration histories",
+   text="Histories of reports (5 reporters, known/unknown addresses), ageing (timestamps rewritten through snapshot->restore), queries, registrations, re-registrations, removals, failovers for quorum 1..4 and ttl 5/60/3600 s. Listed => registered and >= quorum distinct reporters with a fresh report; duplicates count once; nothing older than ttl survives a query; re-registration clears reports and failed mark.",
+   note=BROKER_NOTE + " Wall-clock seconds enter through chrono::Utc::now in the broker; ages within 2 s of the ttl are excluded by construction."),
 }
 
 NOT_YET = {}
